@@ -7,7 +7,7 @@ from pyvc.builtins_ import f_lstrip, f_rstrip
 from specs.ev import EV, EVX
 from specs.strings import fmt, fmt_ok, wfp
 from specs.external import dcopy, jdumps, fs_exists, fs_readable
-from specs.wf import evalok, eval_axioms, http_ctx
+from specs.wf import wf_eval, eval_axioms, http_ctx, ctx_ok
 from .util import args5, eval_defs, json_axioms
 
 FORM = 'application/x-www-form-urlencoded'
@@ -124,14 +124,14 @@ def register(reg, stubs, world):
                                                  V.is_dict(eng.val(L.st, L.st.loc['temp_target']))))]
     reg.add(Contract('_external:HttpCheck._construct_payload', pre=pl_pre, post=pl_post, axioms=pl_axioms,
                      raises=('$OtherException',), allocates=True,
-                     loops={1: LoopSpec(pl_inv, havoc=('$val',))}, props=('C16',),
+                     loops={1: LoopSpec(pl_inv, havoc=('$val',), fresh_only=True)}, props=('C16',),
                      doc='payload from a deep copy of the target with opaque objects blanked; the caller\'s target '
                          'is not written (frame: no write to any pre-existing object)'))
 
     # ------------------------------------------------------------------ HttpCheck / HttpsCheck __call__
     def http_pre(cx):
         s, t, c, e, cur = args5(cx)
-        return [('evaluable-in-context', evalok(s, t, c, e))]
+        return [('check-tree-is-evaluable', wf_eval(s, e)), ('target-and-credentials-are-valid', ctx_ok(cx.eng, cx.st0, t, c))]
 
     def http_axioms_(scheme):
         def ax(cx):
